@@ -37,14 +37,24 @@ Definition self_safe (E : env) (T : trust) (h : hdr) : res bool :=
   if kind_eqb (h_kind h) KJson then Ok true
   else do n <- node_name h; Ok (mem n (node_trusted E T h)).
 
-(* how get_unsafe_set is implemented for a kind *)
-Inductive ukind := UNothing | UFunction | UGeneric.
+(* how get_unsafe_set is implemented for a kind:
+   UNothing  JsonNode: set()
+   UOwn      SliceNode: its own module.class unless is_self_safe(); the children (raw JSON bounds) are not
+             walked and there is no _computing_unsafe_set guard (nothing below it can lead back to it)
+   UFunction FunctionNode: the function's name
+   UGeneric  Node.get_unsafe_set: own name, then the children, under the cycle guard *)
+Inductive ukind := UNothing | UOwn | UFunction | UGeneric.
 Definition ukind_of (k : kind) : ukind :=
   match k with
-  | KJson | KSlice => UNothing
+  | KJson => UNothing
+  | KSlice => UOwn
   | KFunction | KFunctionV0 => UFunction
   | _ => UGeneric
   end.
+
+(* the kinds whose audit reports the header's own module.class when the node does not trust it *)
+Definition names_own (k : kind) : bool :=
+  match ukind_of k with UOwn | UGeneric => true | _ => false end.
 
 Definition own_unsafe (E : env) (T : trust) (h : hdr) : res (list pstr) :=
   do ss <- self_safe E T h;
@@ -108,6 +118,7 @@ Fixpoint unsafe_g (E : env) (T : trust) (root : node) (fuel : nat) (path : list 
       | Node h subs =>
           match ukind_of (h_kind h) with
           | UNothing => Ok []
+          | UOwn => own_unsafe E T h
           | UFunction => fn_unsafe E T h subs
           | UGeneric =>
               if on_path h path then Ok [] else
@@ -130,6 +141,7 @@ Fixpoint unsafe_tree (E : env) (T : trust) (n : node) : res (list pstr) :=
   | Node h subs =>
       match ukind_of (h_kind h) with
       | UNothing => Ok []
+      | UOwn => own_unsafe E T h
       | UFunction => fn_unsafe E T h subs
       | UGeneric =>
           do own <- own_unsafe E T h;
